@@ -15,4 +15,5 @@ if [ ! -d "$base" ]; then
   GOCACHE="$tmp" go vet ./vref >/dev/null 2>&1 || true
   mv "$tmp" "$base" 2>/dev/null || rm -rf "$tmp"
 fi
+if [ -n "$VERIF_SELFTEST" ]; then ./vcheck selftest; fi
 echo "setup ok"
